@@ -139,7 +139,8 @@ class MakeFromCollectionImpl(OmegaMixin, Contract):
                                                                        cx.obj(cx.var('children')).len == cx.var('child__idx'))),
                                   ('node-keeps-the-metadata-and-has-no-entries-yet',
                                    z3.And(cx.var('node').get('node_data') == M.py_item(self.as_tuple(cx.st.ghost['flatten_result']), 1),
-                                          cx.var('node').get('node_entries') == NULL))],
+                                          cx.var('node').get('node_entries') == NULL,
+                                          cx.var('node').get('original_keys') == NULL))],
                       index='child__idx', seq_len=lambda eng, st, rng: M.iter_len(rng.ref))
         self.loops = {0: Loop(self.cast_inv, index='child__idx'), 1: Loop(self.ns_inv, index='treespec__idx'),
                       2: Loop(self.cast_inv, index='child__idx'), 3: Loop(self.ns_inv, index='treespec__idx'),
@@ -288,7 +289,10 @@ class MakeFromCollectionImpl(OmegaMixin, Contract):
                ('without-namespaced-children:given-namespace-only-for-custom-nodes-(and-childless-leaf-or-None)',
                 z3.Implies(forall([kk], z3.Implies(z3.And(0 <= kk, kk < n), M.ext_spec_ns(e(kk)) == EMPTY)),
                            spec.ns == z3.If(z3.Or(k == K['Custom'], k == K['Leaf'], k == K['None']), given, EMPTY))),
-               ('error-indicator-clear-on-return', z3.Not(cx.st.ghost['pyerr']))]
+               ('error-indicator-clear-on-return', z3.Not(cx.st.ghost['pyerr'])),
+               # unflatten rebuilds dict / defaultdict in source key order and pickling requires the field (C01, C11)
+               ('exactly-dict-and-defaultdict-roots-record-their-original-key-order',
+                z3.Or(k == K['Dict'], k == K['DefaultDict']) == (t.sel('original_keys', last) != NULL))]
         # payload of the root node
         as_tuple = lambda x: z3.If(M.py_is_tuple(x), x, z3.Function('py_convert_tuple', Ref, Ref)(x))
         h = cx.old('handle').ref
